@@ -16,6 +16,8 @@ From VL Require Import Prelude.Sx Prelude.PyDict Prelude.GDict Model.GetNBest Mo
      Proofs.BucklinShared_proofs Proofs.BucklinLeave_proofs.
 From VL Require Model.Hybrids Proofs.Hybrids_proofs.
 From VL Require Import Proofs.RaisesBallot_proofs Proofs.Scorers_proofs.
+From VL Require Import Proofs.HouseTie_proofs Proofs.VotesFull_proofs.
+From VL Require Model.Quota Model.QuotaDistributor.
 Import ListNotations.
 Open Scope Z_scope.
 
@@ -636,6 +638,110 @@ Example C17_example :
       [1%positive; 2%positive; 3%positive] = [4; 2; 0].
 Proof. vm_compute. split; reflexivity. Qed.
 
+
+(* ==== wave 5: the per-case parts of the two highest-averages clauses closed (Proofs/HouseTie_proofs.v, Proofs/VotesFull_proofs.v).
+   [tie_seat s c] = 1 when c is a member of the reported tie of s (it may still get one of the tied seats), else 0;
+   a party's possible total is [tot_s s c + tie_seat s c]. *)
+
+(* House monotonicity, the exact relation of the run for n seats and the run for n + 1 seats ([house_rel]): either the smaller run
+   reports no tie and nobody's sure seats drop; or it reports Tie(T, r) and the larger run has the SAME sure seats and reports
+   Tie(T, r + 1), or - when r + 1 = |T| - gives every member of T one more sure seat and reports no tie.
+   Every divisor function, votes, caps, non-negative previous gains. *)
+Theorem C17_house_exact : forall (d : Z -> Q) (votes : list (C * Q)) (caps prev : list (C * Z)) (n : Z),
+  Forall (fun cv => 0 <= snd cv) prev ->
+  let sa := final_state d votes n prev caps in let sb := final_state d votes (n + 1) prev caps in
+  (st_tie sa = None /\ forall c, tot_s sa c <= tot_s sb c) \/
+  (exists T r, st_tie sa = Some (T, r) /\
+     ((st_tie sb = Some (T, r + 1) /\ st_totals sb = st_totals sa) \/
+      (st_tie sb = None /\ Z.of_nat (length T) = r + 1 /\ forall c, tot_s sb c = tot_s sa c + count c T))).
+Proof. intros d votes caps prev n Hp. exact (house_exact d votes caps n prev Hp). Qed.
+
+(* ... so neither the sure seats (C17_house) nor the possible total of any party ever drop when a seat is added *)
+Theorem C17_house_tie : forall (d : Z -> Q) (votes : list (C * Q)) (caps prev : list (C * Z)) (n : Z),
+  Forall (fun cv => 0 <= snd cv) prev -> forall c,
+  tot_s (final_state d votes n prev caps) c + tie_seat (final_state d votes n prev caps) c <=
+  tot_s (final_state d votes (n + 1) prev caps) c + tie_seat (final_state d votes (n + 1) prev caps) c.
+Proof. intros d votes caps prev n Hp. exact (house_tie_monotone d votes caps n prev Hp). Qed.
+
+(* Vote monotonicity in full: every positive NON-DECREASING divisor (no strictness), votes >= 0 (zero-vote parties, p itself may
+   start from zero), caps (p capped, others capped, caps exhausted), non-negative previous gains, and whatever way either run ends:
+   party p gains votes, everybody else keeps theirs; then (i) the seats p holds for certain do not drop and (ii) its possible total
+   (sure seats + the seat it may still get out of a reported tie) does not drop.  C17_votes is the special case "new run tie-free". *)
+Theorem C17_votes_full : forall (d : Z -> Q) (votes votes' : list (C * Q)) (caps prev : list (C * Z)) (n : Z)
+    (p : C) (vp vp' : Q),
+  divisor_ok d ->
+  (forall c v, In (c, v) votes -> (0 <= v)%Q) -> (forall c v, In (c, v) votes' -> (0 <= v)%Q) ->
+  NoDup (map fst votes) -> NoDup (map fst votes') -> (forall c, 0 <= dget_or prev c 0) ->
+  dget votes p = Some vp -> dget votes' p = Some vp' -> (vp <= vp')%Q ->
+  (forall c, c <> p -> dget votes' c = dget votes c) ->
+  let sa := final_state d votes n prev caps in let sb := final_state d votes' n prev caps in
+  tot_s sa p <= tot_s sb p /\ tot_s sa p + tie_seat sa p <= tot_s sb p + tie_seat sb p.
+Proof.
+  intros d votes votes' caps prev n p vp vp' [Hpos Hmono] Hv Hv' Hnd Hnd' Hprev Hp Hp' Hle Hoth.
+  exact (votes_monotone_full d votes votes' caps prev n Hpos Hmono Hv Hv' Hnd Hnd' Hprev p vp vp' Hp Hp' Hle Hoth).
+Qed.
+
+(* the hypothesis on the divisor holds for the five built-in sequences and for modified_first_coef(f, c) with 0 < c <= f(1) *)
+Theorem C17_builtin_divisors_ok :
+  (forall i, divisor_ok (divisor_by_id i)) /\
+  (forall f c, divisor_ok f -> (0 < c)%Q -> (c <= f 1%Z)%Q -> divisor_ok (modified_first_coef f c)).
+Proof. split; [exact builtin_ok|exact modified_ok]. Qed.
+
+(* non-vacuity: d'Hondt, 2 seats, C has no votes and is capped.  A: 8 -> 10 votes (B: 20): before, B takes both seats; after, B holds one
+   and A and B tie for the other - A's sure seats stay 0, its possible total rises from 0 to 1 (and B, who did not change, loses a sure seat);
+   three zero-vote parties tie for both seats; when A gets 3 votes it takes both *)
+Example C17_votes_full_example :
+  let show s := (map (tot_s s) [1; 2; 3]%positive, st_tie s, map (tie_seat s) [1; 2; 3]%positive) in
+  show (final_state d_hondt [(1%positive, 8#1); (2%positive, 20#1); (3%positive, 0#1)]%Q 2 [] [(3%positive, 1)]) = ([0; 2; 0], None, [0; 0; 0]) /\
+  show (final_state d_hondt [(1%positive, 10#1); (2%positive, 20#1); (3%positive, 0#1)]%Q 2 [] [(3%positive, 1)])
+    = ([0; 1; 0], Some ([2%positive; 1%positive], 1), [1; 1; 0]) /\
+  show (final_state d_hondt [(1%positive, 0#1); (2%positive, 0#1); (3%positive, 0#1)]%Q 2 [] [])
+    = ([0; 0; 0], Some ([1%positive; 2%positive; 3%positive], 2), [1; 1; 1]) /\
+  show (final_state d_hondt [(1%positive, 3#1); (2%positive, 0#1); (3%positive, 0#1)]%Q 2 [] []) = ([2; 0; 0], None, [0; 0; 0]).
+Proof. vm_compute. repeat split; reflexivity. Qed.
+
+(* non-vacuity of both branches of C17_house_exact: three equal parties, 4 -> 5 seats: Tie(T, 1) becomes Tie(T, 2); 60/30/10, 5 -> 6 seats:
+   Tie({A, B}, 1) is resolved, both get the seat *)
+Example C17_house_exact_example :
+  let show s := (map (tot_s s) [1; 2; 3]%positive, st_tie s) in
+  show (final_state d_hondt [(1%positive, 6#1); (2%positive, 6#1); (3%positive, 6#1)]%Q 4 [] []) = ([1; 1; 1], Some ([1; 2; 3]%positive, 1)) /\
+  show (final_state d_hondt [(1%positive, 6#1); (2%positive, 6#1); (3%positive, 6#1)]%Q 5 [] []) = ([1; 1; 1], Some ([1; 2; 3]%positive, 2)) /\
+  show (final_state d_hondt [(1%positive, 60#1); (2%positive, 30#1); (3%positive, 10#1)]%Q 5 [] []) = ([3; 1; 0], Some ([1; 2]%positive, 1)) /\
+  show (final_state d_hondt [(1%positive, 60#1); (2%positive, 30#1); (3%positive, 10#1)]%Q 6 [] []) = ([4; 2; 0], None).
+Proof. vm_compute. repeat split; reflexivity. Qed.
+
+(* ---- largest remainder: NOT among the rules the property claims monotone ("under every highest-averages rule ..."); recorded for contrast,
+   kernel-evaluated on the model of LargestRemainder.evaluate (Model/QuotaDistributor.v, tied to the code by the streams of C02 and by the
+   stream lr-paradox here) and replayed on the implementation (corpus/C17/lr-*.json).
+   Alabama paradox: Hare quota, votes 3 / 1 / 7: in a house of 5 party B holds a seat, in a house of 6 it holds none. *)
+Theorem C17_lr_house_refuted :
+  exists (votes : list (C * Q)) (n : Z) (p : C) s1 s2,
+    QuotaDistributor.lr_evaluate Quota.hare true QuotaDistributor.PError votes n [] [] = QuotaDistributor.LR_ok s1 /\
+    QuotaDistributor.lr_evaluate Quota.hare true QuotaDistributor.PError votes (n + 1) [] [] = QuotaDistributor.LR_ok s2 /\
+    QuotaDistributor.kdget s2 p < QuotaDistributor.kdget s1 p.
+Proof.
+  exists [(1%positive, 3#1); (2%positive, 1#1); (3%positive, 7#1)]%Q, 5, 2%positive,
+    [(QuotaDistributor.K 1%positive, 1); (QuotaDistributor.K 3%positive, 3); (QuotaDistributor.K 2%positive, 1)], [(QuotaDistributor.K 1%positive, 2); (QuotaDistributor.K 3%positive, 4)].
+  vm_compute. repeat split; reflexivity.
+Qed.
+
+(* a party that gains a vote loses a seat under a ROUNDED quota (Droop = floor(V / (n + 1)) + 1 jumps from 1 to 2): votes 1 / 4, 5 seats:
+   B holds 4 seats; with 5 votes it holds 3 (the remainder stage gives every party at most one seat: only 4 of the 5 seats are filled) *)
+Theorem C17_lr_votes_droop_refuted :
+  exists (votes votes' : list (C * Q)) (n : Z) (p : C) (vp vp' : Q) s1 s2,
+    dget votes p = Some vp /\ dget votes' p = Some vp' /\ (vp <= vp')%Q /\ (forall c, c <> p -> dget votes' c = dget votes c) /\
+    QuotaDistributor.lr_evaluate Quota.droop true QuotaDistributor.PError votes n [] [] = QuotaDistributor.LR_ok s1 /\
+    QuotaDistributor.lr_evaluate Quota.droop true QuotaDistributor.PError votes' n [] [] = QuotaDistributor.LR_ok s2 /\
+    QuotaDistributor.kdget s2 p < QuotaDistributor.kdget s1 p.
+Proof.
+  exists [(1%positive, 1#1); (2%positive, 4#1)]%Q, [(1%positive, 1#1); (2%positive, 5#1)]%Q, 5, 2%positive, (4#1)%Q, (5#1)%Q,
+    [(QuotaDistributor.K 1%positive, 1); (QuotaDistributor.K 2%positive, 4)], [(QuotaDistributor.K 2%positive, 3); (QuotaDistributor.K 1%positive, 1)].
+  split; [reflexivity|]. split; [reflexivity|]. split; [vm_compute; discriminate|]. split.
+  - intros c Hc. cbn [dget]. destruct (ceqb c 1%positive); [reflexivity|]. destruct (ceqb c 2%positive) eqn:E; [|reflexivity].
+    apply Pos.eqb_eq in E. congruence.
+  - vm_compute. repeat split; reflexivity.
+Qed.
+
 Print Assumptions C17_house.
 Print Assumptions C17_house_any.
 Print Assumptions C17_votes.
@@ -686,3 +792,9 @@ Print Assumptions C17_ballot_leave_exact.
 Print Assumptions C17_ballot_leave_raises.
 Print Assumptions C17_copeland_ballots_leave.
 Print Assumptions C17_minimax_ballots_leave.
+Print Assumptions C17_house_exact.
+Print Assumptions C17_house_tie.
+Print Assumptions C17_votes_full.
+Print Assumptions C17_builtin_divisors_ok.
+Print Assumptions C17_lr_house_refuted.
+Print Assumptions C17_lr_votes_droop_refuted.
